@@ -17,7 +17,7 @@ CTX_TEXT = ('Code->spec trace validation: every public call of this family is ex
             'the property on every event). Spec->code: TLC\'s simulator chooses sessions of several same-label '
             'handles on SessionSys.tla (create / query family / failing call / aborted drawing / copy / pickle / '
             'export-reload / orphaned concepts / drop in any order) that are replayed on real objects and validated the same way. The oracle is model checked against the literal property statement on all '
-            'small tables (Theorems.tla, 22 invariants), the handle state machine and implementation-shaped models of '
+            'small tables (Theorems.tla, 23 invariants), the handle state machine and implementation-shaped models of '
             'Lindig / FCbO / the heap merge are explored exhaustively (MC_ContextSys, Algorithms.tla), and the Galois / '
             'closure core is proved for all sizes with TLAPS (thorough tier).')
 
